@@ -1,7 +1,7 @@
 """C02 - RPC delivery integrity, pairing and at-most-once handling (per-stream obligations; QUIC trusted)."""
 from common import *
 import mirdump
-from props import rpcpath, C07_e2, C06
+from props import rpcpath, C07_e2, C06, C11
 
 PROP = 'C02'
 
@@ -12,7 +12,9 @@ def check(report, tier, only=None):
     obs = [('one_stream', lambda rep: rpcpath.ob_do_rpc(rep, PROP)), ('one_request', lambda rep: rpcpath.ob_do_handle(rep, PROP)),
            ('accept_loop', C06.ob_accept_loop), ('send_stream_drop', lambda rep: rpcpath.ob_send_stream_drop(rep, PROP)),
            ('write_request', lambda rep: C07_e2.ob_write(rep, 'request')), ('write_response', lambda rep: C07_e2.ob_write(rep, 'response')),
-           ('read_request', lambda rep: C07_e2.ob_read(rep, 'request')), ('read_response', lambda rep: C07_e2.ob_read(rep, 'response')), ('raw_header', C07_e2.ob_serde_fields)]
+           ('read_request', lambda rep: C07_e2.ob_read(rep, 'request')), ('read_response', lambda rep: C07_e2.ob_read(rep, 'response')), ('raw_header', C07_e2.ob_serde_fields),
+           # the built-in middleware between the wire and the handler / caller only reads the request (it passes on exactly what was sent)
+           ('inbound_timeout_passes_request', lambda rep: C11.ob_selection(rep, 'inbound')), ('outbound_timeout_passes_request', lambda rep: C11.ob_selection(rep, 'outbound'))]
     for n, f in obs:
         if only and not any(s in n for s in only):
             continue
